@@ -401,7 +401,20 @@ func isTimestampScalarSkip(cl *ssa.Function, b *ssa.BasicBlock, typeConst map[st
 		}
 		equal := (bo.Op == token.EQL) == onTrue
 		if (isTsKey(bo.X) || isTsKey(bo.Y)) && equal {
-			keyIsTs = true
+			// what is compared with the timestamp key must be the full dotted column name, not the member name of
+			// the current nesting level (string(key) alone would drop every member called like the timestamp key,
+			// at any depth)
+			other := bo.X
+			if isTsKey(bo.X) {
+				other = bo.Y
+			}
+			leaf := false
+			if cv, ok := other.(*ssa.Convert); ok && len(cl.Params) > 0 && cv.X == ssa.Value(cl.Params[0]) {
+				leaf = true
+			}
+			if !leaf {
+				keyIsTs = true
+			}
 			continue
 		}
 		vt, kv := bo.X, bo.Y
@@ -486,6 +499,90 @@ func checkIndexTimestampKey(c *core.Ctx, r *core.Report) {
 				sites = append(sites, site{g, call})
 			}
 		}
+	}
+	// which key that is depends on the index the batch goes to — the REAL index: a name handed in may be an alias, so
+	// the test that picks the key of a jaeger-* index (strings.HasPrefix(name, "jaeger-")) is made on the result of
+	// AddAndGetRealIndexName, in ProcessIndexRequestPle or in a helper it hands the resolved name to
+	{
+		hasPrefix := c.ExtObj("strings", "HasPrefix")
+		resolve := c.Obj(pkgEsWriter, "AddAndGetRealIndexName")
+		scan := []*ssa.Function{fn}
+		for _, ci := range core.CallsIn(fn) {
+			if h := ci.Common().StaticCallee(); h != nil && h.Blocks != nil && core.FnPkgPath(h) == core.FnPkgPath(fn) {
+				scan = append(scan, h)
+			}
+		}
+		fromResolve := func(v ssa.Value) bool {
+			// inside ProcessIndexRequestPle its own parameters are unresolved names; a helper's parameter stands
+			// for what ProcessIndexRequestPle hands it
+			depth := 1
+			if in, ok := v.(ssa.Instruction); ok && in.Parent() == fn {
+				depth = 0
+			}
+			if p, ok := v.(*ssa.Parameter); ok && p.Parent() == fn {
+				return false
+			}
+			for _, o := range c.Origins(v, depth) {
+				if o.Kind == "call" && o.Obj == resolve {
+					return true
+				}
+				if o.Kind != "field" {
+					continue
+				}
+				carrier, ok := o.Obj.(*types.Var)
+				if !ok {
+					continue
+				}
+				for _, g := range scan {
+					for _, b := range g.Blocks {
+						for _, in := range b.Instrs {
+							st, ok := in.(*ssa.Store)
+							if !ok {
+								continue
+							}
+							fa, ok := st.Addr.(*ssa.FieldAddr)
+							if !ok || core.FieldOfAddr(fa) != carrier {
+								continue
+							}
+							for _, o2 := range c.Origins(st.Val, 1) {
+								if o2.Kind == "call" && o2.Obj == resolve {
+									return true
+								}
+							}
+						}
+					}
+				}
+			}
+			return false
+		}
+		nTests := 0
+		for _, g := range scan {
+			for _, call := range callsTo(g, hasPrefix) {
+				lit, ok := core.ConstStringValue(call.Call.Args[1])
+				if !ok || !strings.HasPrefix(lit, "jaeger") {
+					continue
+				}
+				nTests++
+				resolved := fromResolve(call.Call.Args[0])
+				r.Check(resolved, "DEPENDS", fmt.Sprintf("%s:jaeger-index-test#%d-on-the-resolved-index-name", shortFn(fn), nTests), c.Pos(call.Pos()),
+					"the name tested is the result of AddAndGetRealIndexName",
+					"the test that selects the timestamp key (and signal type) of jaeger-* indexes is made on a name that was not resolved through AddAndGetRealIndexName: spans sent through an alias of a jaeger-* index are read with the default key and stored with the arrival time")
+			}
+		}
+		r.Floor("DEPENDS", "tests for jaeger-* indexes in ProcessIndexRequestPle", nTests, 1)
+		// ... and the same resolved name is the table the batch is stored under (the open segment is created
+		// with it: events stored under an alias name are answered 201 and found by no search)
+		store := c.Obj(pkgWriter, "AddEntryToInMemBuf")
+		nStore := 0
+		for _, g := range scan {
+			for _, call := range callsTo(g, store) {
+				nStore++
+				r.Check(fromResolve(call.Call.Args[1]), "DEPENDS", fmt.Sprintf("%s:AddEntryToInMemBuf#%d-stores-under-the-resolved-index-name", shortFn(fn), nStore), c.Pos(call.Pos()),
+					"the table name handed to the store is the result of AddAndGetRealIndexName",
+					"the batch is stored under a name that was not resolved through AddAndGetRealIndexName: a request addressed to an alias creates (or fills) an open segment labelled with the alias, its items are answered 201, and neither a search through the alias nor one on the real index finds them")
+			}
+		}
+		r.Floor("DEPENDS", "store calls of ProcessIndexRequestPle", nStore, 1)
 	}
 	r.Floor("DEPENDS", "timestamp extractions in ProcessIndexRequestPle", len(sites), 1)
 	for i, st := range sites {
